@@ -435,9 +435,9 @@ func checkMain(args []string) {
 	}
 	if *prop == "C15" && xproc == nil {
 		// a process that has lived through other histories against one that has not
-		n := int64(96)
+		n := int64(400)
 		if *tier == "thorough" {
-			n = 960
+			n = 4000
 		}
 		f, compared := warmColdSample(self, *seed, n, *scratch)
 		total.Probes["history-compared-between-cold-and-warm-process"] += compared
@@ -760,7 +760,7 @@ func crossProcessCheck(self string, raw json.RawMessage, dir string) (*Violation
 			if strings.HasPrefix(a, "construct") {
 				op = "Diff/Read"
 			}
-			v := viol15("across-processes", op, "the same call on identical values returned different results in two fresh processes: %s | %s", showStr(a[ia+8:]), showStr(b[ib+8:]))
+			v := viol15("across-processes", op, "the same call on identical values returned different results in two fresh processes: %s | %s", clip(a[ia+8:]), clip(b[ib+8:]))
 			return v, []string{"process 0: " + a, fmt.Sprintf("process %d: %s", p, b)}
 		}
 	}
@@ -885,7 +885,7 @@ func warmColdCheck(self string, raw json.RawMessage, dir string) (*Violation, []
 		if strings.HasPrefix(a[i], "construct") {
 			op = "Diff/Read"
 		}
-		v := viol15("across-processes", op, "the same call on identical values returns %s in a process that did nothing before, and %s in a process that ran %d other histories first", showStr(a[i][ia+8:]), showStr(b[i][ib+8:]), len(c.WarmUp))
+		v := viol15("across-processes", op, "the same call on identical values returns %s in a process that did nothing before, and %s in a process that ran %d other histories first", clip(a[i][ia+8:]), clip(b[i][ib+8:]), len(c.WarmUp))
 		v.Tag = "after-other-histories"
 		return v, []string{"cold process: " + a[i], "warm process: " + b[i]}
 	}
@@ -939,8 +939,27 @@ func warmColdSample(self string, seed uint64, n int64, scratch string) (*Found, 
 				i++
 			}
 		}
+		// the one call that differs, alone, if that is enough
+		var ci int
+		if len(log) > 0 {
+			if _, err := fmt.Sscanf(strings.TrimPrefix(log[0], "cold process: "), "call %d", &ci); err == nil && ci < len(c.Calls) {
+				d := c
+				d.Calls = []Call{c.Calls[ci]}
+				raw, _ := json.Marshal(d)
+				if v2, log2 := warmColdCheck(self, raw, scratch); v2 != nil && v2.Class() == class {
+					c, v, log = d, v2, log2
+				}
+			}
+		}
 		raw, _ := json.Marshal(c)
 		return &Found{Run: r.run, V: *v, Case: raw, Log: log, Count: 1}, n
 	}
 	return nil, n
+}
+
+func clip(s string) string {
+	if len(s) > 500 {
+		return s[:500] + "..."
+	}
+	return s
 }
